@@ -57,6 +57,15 @@ def instances(tier, rng):
             extra.append({"cons": [es[:2]]})
             if len(es) >= 2:
                 extra.append({"cons": [[es[0], es[-1]]], "cov": [1, 2]})
+            if kind == "dag" and len(es) >= 2:
+                # length coverage: several constraints over short / long edges, fraction of the listed LENGTH
+                ps = [C.route_edges(p) for p in u["proutes"]]
+                lc = {"cons": [q[:2] for q in ps if len(q) >= 2][:3] or [es[:2]],
+                      "covlen": rng.choice([[1, 2], [7, 10], [3, 4]]),
+                      "elen": [rng.choice([vlib.NONE, 1, 3, 3, 5]) for _ in u["edges"]]}
+                extra.append(lc)
+                if quick and rng.random() < 0.5:
+                    feats.append(lc)
             for cfg in feats + (rng.sample(extra, 3) if quick else extra):
                 r = cover_rec(u, mincls, **dict(cfg))
                 r["expect_solved"] = True
